@@ -168,7 +168,9 @@ fn kinds_for(uri: &str) -> Value {
             return;
         }
         let v = match guard(|| ZcashAddress::try_from_encoded(s)) {
-            Ok(Ok(a)) => json!({"valid": true, "t_only": a.is_transparent_only(), "memo": a.can_receive_memo()}),
+            // `canonical`: the address codec accepts a few spellings of one address (it trims
+            // surrounding whitespace, for instance); requests are compared on this form
+            Ok(Ok(a)) => json!({"valid": true, "t_only": a.is_transparent_only(), "memo": a.can_receive_memo(), "canonical": a.encode()}),
             _ => json!({"valid": false}),
         };
         m.insert(s.to_string(), v);
@@ -687,6 +689,8 @@ const AMOUNT_FORMS: &[&str] = &[
     "9223372036854775807", "9223372036854775808", "18446744073709551615", "18446744073709551616", "18446744073709551624", "184467440737.09551616",
     "92233720368.54775808", "00000000000000000000000000000001", "0.1", "0.10000000", "1%30", "%31", "1.%30", "1%2E5", "1;5", "1:5", "1/2",
     "000000021000000.00000000", "4294967296", "42.94967296", "0.99999999", "0.999999995",
+    // whole part times 10^8 wraps a u64 into the valid range
+    "184467440738", "184467440738.5", "184467440737.09551617", "368934881475", "184467440737.99999999", "1844674407370955.1616",
 ];
 
 const INDEX_FORMS: &[&str] = &[
@@ -835,8 +839,12 @@ fn mutate(rng: &mut ChaCha20Rng, pool: &Pool, u: &mut U) -> (&'static str, Optio
             let pay = pick_pay(rng, u);
             let before = u.params.len();
             u.params.retain(|p| !(p.pay == pay && p.name == "address"));
-            if before == u.params.len() && pay == 0 {
+            if before == u.params.len() {
+                // this payment's address was the leading one
                 u.lead.clear();
+            }
+            if u.params.iter().all(|p| p.pay != pay) {
+                return ("none", None);
             }
             ("missing-address", None)
         }
@@ -885,7 +893,9 @@ fn mutate(rng: &mut ChaCha20Rng, pool: &Pool, u: &mut U) -> (&'static str, Optio
         }
         24 => {
             // address strings that are not addresses
-            let a = match rng.gen_range(0..7) {
+            let a = match rng.gen_range(0..9) {
+                7 => format!("{}{}", pool.any(rng).s, [" ", "\t", "\n", "\r\n", "\u{b}", "\u{a0}", "%20"].choose(rng).unwrap()),
+                8 => format!("{}{}", [" ", "\t", "\u{3000}"].choose(rng).unwrap(), pool.any(rng).s),
                 0 => String::new(),
                 1 => "t1".into(),
                 2 => pool.any(rng).s.to_uppercase(),
@@ -1206,9 +1216,9 @@ fn main() {
     phase_constructors(&mut c, &mut rng, &pool, args.shard == 0);
     phase_memos(&mut c, &mut rng, args.get_u64("memos", args.pick(1500, 60_000)));
 
-    let n_rt = args.get_u64("roundtrips", args.pick(1500, 200_000));
-    let n_mut = args.get_u64("mutations", args.pick(2500, 400_000));
-    let n_fuzz = args.get_u64("fuzz", args.pick(6000, 1_000_000));
+    let n_rt = args.get_u64("roundtrips", args.pick(4000, 200_000));
+    let n_mut = args.get_u64("mutations", args.pick(8000, 400_000));
+    let n_fuzz = args.get_u64("fuzz", args.pick(15_000, 1_000_000));
     let mut runner = vh_common::proptest_runner(args.shard_seed(), 1202);
     let nets = [NetworkType::Main, NetworkType::Test, NetworkType::Regtest];
     let strat_idx: Vec<_> = nets.iter().map(|n| zip321::testing::arb_zip321_request(*n)).collect();
